@@ -172,6 +172,11 @@ def isInline (p : Program) (g : Nat) : Bool :=
   | some (.res _ _ kind o) => (kind == "ba" || kind == "rwba") && !o.array
   | _ => false
 
+def isArray (p : Program) (g : Nat) : Bool :=
+  match globalDef p g with
+  | some (.res _ _ _ o) => o.array
+  | _ => false
+
 /-- the struct a resource's type mentions (`ConstantBuffer<S>`, `StructuredBuffer<S>`) -/
 def elemStruct (p : Program) (g : Nat) : Option Nat :=
   match globalDef p g with
@@ -375,7 +380,10 @@ def cbMemberName (p : Program) (c i : Nat) : String :=
 
 def useToks (t : Target) (sc : Scope) (names : List Named) (p : Program) : Ref → List Tok
   | .glob k =>
-    if t.isMsl && !isConstantGlobal p k then [.use sc false [leaf names ⟨.global, k⟩] (.sym ⟨.global, k⟩)] ++ memberTok sc p k
+    if t.isMsl && !isConstantGlobal p k then
+      -- an element of an array of structured buffers is cast to its buffer type first
+      (if isArray p k then typeToks sc names p k else []) ++
+        [.use sc false [leaf names ⟨.global, k⟩] (.sym ⟨.global, k⟩)] ++ memberTok sc p k
     else [.use sc false (pathOf names ⟨.global, k⟩) (.sym ⟨.global, k⟩)] ++ memberTok sc p k
   | .func k =>
     if (methodOrds p).contains k then [] else
@@ -454,6 +462,9 @@ def nsChain (p : Program) : Nat → Option Nat → List Nat
 adjacent blocks of one (emitted) name are merged.  `cur` = the blocks that are open. -/
 def wrap (names : List Named) (p : Program) : List String → List (Option Nat × List Tok) → List Tok
   | cur, [] => cur.map fun _ => .cl
+  | cur, (none, []) :: rest =>
+    -- a root definition that emits nothing leaves no node behind: the blocks around it stay adjacent
+    wrap names p cur rest
   | cur, (ns, toks) :: rest =>
     let path := nsPath names ns
     let c := commonPrefix cur path
